@@ -3,7 +3,7 @@ reference semantics run in lock-step on every transition."""
 import sys
 import time
 
-from .. import runtime
+from .. import runtime, seams
 from ..graphmodel import core, ops as O
 
 UNIVERSES = {
@@ -269,7 +269,15 @@ def _expand_chunk(chunk):
             for op in ops:
                 if op[0] == 'Task()' and not _pristine(pre_abs, op[1]):
                     continue
-                res = run_transition(U, enc, pre_obs, pre_abs, op, acc, hist, cache, obs_cache, pre_ok)
+                try:
+                    # watchdog: one mutator call on <= 5 tasks takes microseconds; the limit is only reached by a call that spins
+                    with seams.time_limit(60):
+                        res = run_transition(U, enc, pre_obs, pre_abs, op, acc, hist, cache, obs_cache, pre_ok)
+                except seams.WallTimeout:
+                    acc.violation(runtime.CURRENT_PROP or 'C01', f'{op[0]}/operation-does-not-terminate/-',
+                                  f'{O.describe(op)} was still running after 60 s',
+                                  {'universe': U.name, 'readable_history': [O.describe(h) for h in hist], 'op': O.describe(op)})
+                    break
                 if res is None:
                     continue
                 post_enc, si = res
